@@ -428,7 +428,8 @@ def run(ctx: Ctx) -> None:
     ctx.run(rule_critical)
     ctx.run(rule_identity)
     from rules import C10
-    ctx.run(C10.rule_predicate)  # 'nothing outside the critical region is counted' rests on the filter predicate's decision table
+    ctx.run(C10.rule_predicate)
+    ctx.run(C10.rule_manager)  # 'nothing outside the critical region is counted' rests on the filter predicate's decision table
     scope = ("perception_eval.evaluation.result", "perception_eval.evaluation.matching", "perception_eval.manager") if ctx.tier == "quick" else G.full_scope(ctx)
     ctx.run(G.rule_kw, scope)
     ctx.run(G.rule_kw_splat, scope, min_sites=4)
